@@ -48,7 +48,8 @@ struct Node { var f[3]; int64_t canary; int64_t oid; };
 static void Node_Del(var self);
 static void Node_Assign(var self, var obj);
 static int g_dtor_alloc;
-static var Node_T = Cello(Node, Instance(New, NULL, Node_Del), Instance(Assign, Node_Assign));
+static void Node_New(var self, var args);
+static var Node_T = Cello(Node, Instance(New, Node_New, Node_Del), Instance(Assign, Node_Assign));
 
 #define MAXOBJ   (1 << 18)
 #define MAXCONT  256
@@ -129,7 +130,7 @@ static void Node_Del(var self) {
   if (O[oid].finalised) LV(oid, "C06:finalised-twice", "Node #%d finalised twice", oid);
   O[oid].finalised = 1;
   /* destructors that allocate: registrations (and possibly threshold crossings) in the middle of a sweep / a del / a teardown */
-  if (g_dtor_alloc && !g_stopped && !g_torn_down) {
+  if (g_dtor_alloc && !g_stopped && !g_torn_down && g_nobj < 60000) {   /* (bounded: the long-chain plans stay cheap) */
     for (int i = 0; i < g_dtor_alloc; i++) { var j = new(Int, $I(i)); new_obj(j, HK_JUNK, CL_MANAGED); }
     stat_add("heap.destructor_allocations", g_dtor_alloc);
   }
@@ -376,6 +377,30 @@ static __attribute__((noinline)) var deep_kid(int so) {
   return k;
 }
 static int g_deep_kid[3];
+/* Node's constructor may allocate child Nodes: collection points while the object under construction is referenced only by
+ * the new() in progress */
+static int g_ctor_kids; static int g_ctor_kid[3];
+static __attribute__((noinline)) var ctor_kid(void) {
+  int save = g_ctor_kids; g_ctor_kids = 0;
+  struct Node* k = new(Node_T);
+  g_ctor_kids = save;
+  int oid = new_obj(k, HK_NODE, CL_MANAGED);
+  k->canary = CANARY; k->oid = oid;
+  stat_add("heap.constructor_children", 1);
+  return k;
+}
+static void Node_New(var self, var args) {
+  (void)args;
+  struct Node* n = self;
+  int nk = g_ctor_kids;
+  if (nk <= 0) return;
+  g_ctor_kid[0] = g_ctor_kid[1] = g_ctor_kid[2] = -1;
+  for (int k = 0; k < nk && k < 3; k++) {
+    n->f[k] = ctor_kid();
+    g_ctor_kid[k] = (int)((struct Node*)n->f[k])->oid;
+    sim_scrub_stack();
+  }
+}
 static void Node_Assign(var self, var obj) {
   struct Node* d = self; struct Node* s = obj;
   memcpy(d, s, sizeof *d);
@@ -429,9 +454,14 @@ static void do_burst(int n) {
 /* ------------------------------------------------------------------- ops */
 static void op_newnode(const Op* op) {
   int s = (int)(((op->a[0] % NSLOT) + NSLOT) % NSLOT), cls = cls_norm(op->a[1]);
+  int nk = (!g_stopped && (cls == CL_MANAGED || cls == CL_ROOT) && (op->a[1] / 8) % 3 == 0) ? 1 + (int)((op->a[1] / 24) % 3) : 0;
+  g_ctor_kids = nk;
   struct Node* n = alloc_by_cls(Node_T, cls, tuple());
+  g_ctor_kids = 0;
   int oid = new_obj(n, HK_NODE, cls);
   n->canary = CANARY; n->oid = oid;
+  for (int k = 0; k < nk; k++) O[oid].e[k] = g_ctor_kid[k];
+  if (nk) stat_add("heap.constructor_allocates", 1);
   slot_store(s, oid);
   stat_add(cls == CL_ROOT ? "heap.new_root" : cls == CL_RAW ? "heap.new_raw" : cls == CL_UNREG ? "heap.new_while_stopped" : "heap.new", 1);
 }
